@@ -283,7 +283,9 @@ Cont(r, n, f, ret) ==
     [] ret = "uret"    -> [r EXCEPT !.upc = "u_idle"]           \* the API call returns to the user
     [] ret = "qend"    -> [r EXCEPT !.upc = "q_end"]            \* AE.associate() returns, not established
     [] ret = "rlend"   -> [r EXCEPT !.ckpt = TRUE, !.upc = "u_idle"]   \* release(): checkpoint.set()
-    [] ret = "loop"    -> [r EXCEPT !.apc = IF r.est THEN "r_rel" ELSE "r_abt"]  \* back in _run_reactor
+    \* back in _run_reactor: `if self.acse.is_release_requested() and self.is_established:` - the queue is looked at
+    \* first (since the C06 repair 54b6f12), whether or not the association is still established
+    [] ret = "loop"    -> [r EXCEPT !.apc = "r_rel"]
     [] ret = "rkill"   -> KillEnter(r, n, f, "fin")             \* idle path: abort(); kill()
     \* after kill() inside abort(): the code means to shut the socket down here, but as coded
     \* (`cast(AssociationSocket, ...)` with a name imported only under TYPE_CHECKING) the call
@@ -402,16 +404,17 @@ RMsg(n) ==      \* dimse.get_msg(block=False) and _serve_request
             Upd(n, Cont(r3, n, "apc", "loop"))
      ELSE Upd(n, Cont(r1, n, "apc", "loop"))
 
-RRel(n) ==      \* if is_established and acse.is_release_requested()
+RRel(n) ==      \* if acse.is_release_requested() [takes a pending A-RELEASE indication] and is_established
   LET r == nd[n] IN
   /\ r.apc = "r_rel"
-  /\ IF r.est /\ r.userq # <<>> /\ Head(r.userq) = "REL_IND"
-     THEN IF AtomicOutcome
-          THEN Upd(n, KillEnter(Fire([Put([r EXCEPT !.userq = Tail(@)], "provq", "REL_RP")
-                                       EXCEPT !.rel = TRUE, !.est = FALSE, !.sentRel = TRUE], "RELEASED"),
+  /\ IF r.userq # <<>> /\ Head(r.userq) = "REL_IND"
+     THEN LET r0 == [r EXCEPT !.userq = Tail(@)] IN
+          IF ~r0.est THEN Upd(n, [r0 EXCEPT !.apc = "r_abt"])        \* taken, not answered: the association has ended
+          ELSE IF AtomicOutcome
+          THEN Upd(n, KillEnter(Fire([Put(r0, "provq", "REL_RP") EXCEPT !.rel = TRUE, !.est = FALSE, !.sentRel = TRUE], "RELEASED"),
                                 n, "apc", "fin"))
           ELSE \* test passed, A-RELEASE-RP queued; is_released / EVT_RELEASED still to come
-               Upd(n, [Put([r EXCEPT !.userq = Tail(@)], "provq", "REL_RP") EXCEPT !.sentRel = TRUE, !.apc = "r_rel_mid"])
+               Upd(n, [Put(r0, "provq", "REL_RP") EXCEPT !.sentRel = TRUE, !.apc = "r_rel_mid"])
      ELSE Upd(n, [r EXCEPT !.apc = "r_abt"])
 RRelMid(n) ==
   LET r == nd[n] IN
